@@ -1352,7 +1352,7 @@ func main() {
 		}
 		return
 	}
-	n := run.Scale(700, 14000)
+	n := run.Scale(700, 12000)
 	for i := 0; i < n; i++ {
 		sc := genScenario(run.Rand.Fork(), i)
 		runScenario(sc)
